@@ -204,6 +204,8 @@ func implC16(line string) string {
 		return implCb(f)
 	case "zoo":
 		return implZoo(f)
+	case "rets":
+		return implRets(f)
 	}
 	return "bad-op"
 }
@@ -389,6 +391,10 @@ func genC16(c *h.Ctx) {
 	}
 	for i := 0; i < c.N(3000, 80000); i++ {
 		c.Add(g.structHistory(), "hist:struct")
+	}
+	// histories of calls: every earlier result is observed again after each later call
+	for i := 0; i < c.N(1500, 30000); i++ {
+		c.Add(g.retsRequest(), "rets")
 	}
 	// distinct struct types that print the same, in one process and one or several runtimes
 	for i := 0; i < c.N(1500, 30000); i++ {
